@@ -711,7 +711,7 @@ int main(int argc, char **argv) {
 		SplitMix64 g(A.seed * 1000003ULL + k * 7919ULL + 5);
 		for (size_t v = 0; v < t.valid.size(); v++) cases.push_back({ k, t.valid[v], "valid" + std::to_string(v), VSEED });
 		for (auto &m : t.pinned) cases.push_back({ k, m.s, "pinned:" + m.d, VSEED });
-		size_t budget = (th ? 800 : 160) * t.weight;
+		size_t budget = (th ? 800 : 130) * t.weight;
 		for (size_t v = 0; v < t.valid.size(); v++) {
 			std::vector<Mut> ms;
 			if (t.fmt == 'p') pgp_mutations(t.valid[v], g, th ? 400 : 60, th ? 300 : 40, ms);
@@ -728,7 +728,7 @@ int main(int argc, char **argv) {
 		}
 	}
 	fflush(stdout);
-	Limits lim; lim.cpu_s = 300; lim.wall_s = 3000; lim.group = 32;
+	Limits lim; lim.cpu_s = 300; lim.wall_s = 3000; lim.group = 64;
 #if defined(__SANITIZE_ADDRESS__)
 	lim.as_mb = 0;
 #else
